@@ -6,7 +6,7 @@ ALL = ['C%02d' % i for i in range(1, 21)]
 
 CHECKS = {
  'C01': dict(
-    text='Proved for every number of dimensions, shape and (start,count,stride): the byte offsets produced by stride_flatten (literal transcription incl. the array_len running product and the record-dimension special cases) are exactly the offsets the format assigns to the addressed elements in request order (strideFlatten_offsets); distinct in-bounds elements occupy disjoint byte ranges inside their own variable / record slot (elems_disjoint_*, elem_inside_*); a batch of disjoint element writes reads back exactly and leaves every other byte unchanged, and disjoint writes commute (put_get_roundtrip, disjoint_puts_commute: any decomposition over any number of processes gives one file). The transcription is tied to ncmpio_filetype.c by running the real static function on every reachable small input; the blocking API as a whole (all forms, typed/flexible, vector buffer types, imap, collective/independent, 1-4 ranks, reopen) is compared line by line with an abstract dataset specification in Lean.',
+    text='Proved for every number of dimensions, shape and (start,count,stride): the byte offsets produced by stride_flatten (literal transcription incl. the array_len running product and the record-dimension special cases) are exactly the offsets the format assigns to the addressed elements in request order (strideFlatten_offsets); ncmpio_first_offset (index loop over dsizes[], first/last/record dimension cases) computes the specified offset of start (firstOffset_eq); whenever is_request_contiguous (innermost-first scan, most significant dimension exempt, several-record-variables rule) answers yes for a request inside the shape, the elements are one run of consecutive elements starting there (isReqContig_sound); distinct in-bounds elements occupy disjoint byte ranges inside their own variable / record slot (elems_disjoint_*, elem_inside_*); a batch of disjoint element writes reads back exactly and leaves every other byte unchanged, and disjoint writes commute (put_get_roundtrip, disjoint_puts_commute: any decomposition over any number of processes gives one file). The transcription is tied to ncmpio_filetype.c by running the real static function on every reachable small input; the blocking API as a whole (all forms, typed/flexible, vector buffer types, imap, collective/independent, 1-4 ranks, reopen) is compared line by line with an abstract dataset specification in Lean.',
     note='Trusted: Lean kernel + 3 standard axioms; MPI datatype/file-view semantics (subarray, hvector, set_view, read/write_at_all) assumed and exercised through OpenMPI+ROMIO; put_varm/get_varm pipeline (pack, convert, swap, imap typemaps, buftype decode) not modelled line by line but tied to Spec/Dataset.lean by the API-level differential stream; values restricted to exactly representable integers (conversion is C09).',
     technique='Lean 4 proof (induction over dimensions, byte-map frame lemmas) about a hand transcription of stride_flatten + unit and API-level differential correspondence',
     design='§4 C01'),
